@@ -27,6 +27,11 @@ func checkC14(c *Ctx, w *World) {
 
 	delayRules(m, c, func(r string) string { return r })
 
+	// ---- C14.identity: pending timers hold *endpoint pointers: the table must keep the very objects the timers were armed
+	// for (never copies), i.e. table values are only ever fresh newEndpoint results stored under their own id (C13.member),
+	// and the table is written only by its two builders
+	importPremises(c, w, "C13", checkC13, []string{"C13.member", "C13.nonempty"}, "C14.identity")
+
 	// ---- C14.converge: the last input (report, list replacement, recovery timer) re-evaluates current before it returns
 	reevalRules(m, c, func(string) string { return "C14.converge" })
 
